@@ -105,6 +105,7 @@ func handleEngineRecord(raw json.RawMessage) *Obs {
 	rng := rand.New(rand.NewSource(c.Seed))
 	exprOK := mustCompile(`$ + 1`)
 	exprBad := mustCompile(`$.nope`)
+	exprSame := mustCompile(`$`)
 	obsGood := mustCompile(`$`)
 	obsFail := mustCompile(fmt.Sprintf(`cond $ {%d: $.nope, _: $}`, engFailAt))
 
@@ -144,12 +145,14 @@ func handleEngineRecord(raw json.RawMessage) *Obs {
 			log.add(e)
 			log.mu.Unlock()
 		}
-		doUpdate := func(ok bool) bool {
-			logEv(engEvent{"ev": "invoke", "c": cname, "op": "update", "ok": ok})
+		doUpdate := func(ok, inc bool) bool {
+			logEv(engEvent{"ev": "invoke", "c": cname, "op": "update", "ok": ok, "inc": inc})
 			var err error
 			expr := exprOK
 			if !ok {
 				expr = exprBad
+			} else if !inc {
+				expr = exprSame
 			}
 			if !call(cname, "update", func() { err = eng.Update(expr) }) {
 				return false
@@ -160,12 +163,16 @@ func handleEngineRecord(raw json.RawMessage) *Obs {
 		for i := 0; i < nops; i++ {
 			x := r.Intn(100)
 			switch {
-			case x < 35:
-				if !doUpdate(true) {
+			case x < 27:
+				if !doUpdate(true, true) {
+					return
+				}
+			case x < 37:
+				if !doUpdate(true, false) { // a valid update that leaves the value as it is
 					return
 				}
 			case x < 45:
-				if !doUpdate(false) {
+				if !doUpdate(false, true) {
 					return
 				}
 			case x < 70:
@@ -224,7 +231,7 @@ func handleEngineRecord(raw json.RawMessage) *Obs {
 	barrierOK := true
 	if len(wedged) == 0 {
 		log.mu.Lock()
-		log.add(engEvent{"ev": "invoke", "c": "c1", "op": "update", "ok": false})
+		log.add(engEvent{"ev": "invoke", "c": "c1", "op": "update", "ok": false, "inc": true})
 		log.mu.Unlock()
 		var err error
 		barrierOK = call("c1", "barrier update", func() { err = eng.Update(exprBad) })
